@@ -548,7 +548,8 @@ pub fn main(args: &[String]) {
         }
         // 2. shapes x lengths x hash sizes
         for shape in [(1usize, 1usize), (1, 2), (2, 2), (3, 1), (0, 0)] {
-            for flen in [0u64, 1, 1 << 40] {
+            // (lengths above 2^53 do not survive a detour through a floating-point number)
+            for flen in [0u64, 1, 1 << 40, (1 << 53) + 1, 1234567890123456789, (1 << 63) + 1, u64::MAX - 1] {
                 for hb in [16usize, 32, 64] {
                     if !mine() {
                         continue;
@@ -592,6 +593,12 @@ pub fn main(args: &[String]) {
             for b in &qa {
                 cmds.push(vec![a.clone(), b.clone()]);
             }
+        }
+        // arguments that look like terminal control sequences (CSI introduced by ESC [ or by the C1 control U+009B):
+        // a reader that "cleans" coloured reports may not eat them
+        for a in ["x\u{9b}1mbold", "S\u{c3}\u{9b}R", "\u{1b}[31mred\u{1b}[0m", "\u{9b}0K", "a\u{9b}?25hb", "\u{1b}]0;title\u{7}", "\u{9b}", "\u{1b}"] {
+            cmds.push(vec![a.as_bytes().to_vec()]);
+            cmds.push(vec![b"--isolate".to_vec(), a.as_bytes().to_vec(), b"plain".to_vec()]);
         }
         for c in cmds {
             if !mine() {
